@@ -47,9 +47,20 @@ type c39Seg struct {
 
 // c39Text replaces message Msg (modulo the number of messages) of request group Group (modulo the number of groups)
 // by a TEXT message carrying the same bytes.
+//
+// Align > 0 shapes the binary message directly before the text message so that its last byte exactly fills the buffer
+// the broker reads it into (the transport then holds an exhausted message when the text message arrives):
+// 1 = it starts at the first byte of packet Pkt (the broker's buffered reader is empty there and asks for its whole
+// buffer size) and is exactly one read buffer long; 2 = it is exactly the body of packet Pkt, a packet whose body is at
+// least one read buffer long (read directly into the packet buffer); 3 = it covers stream offsets (k-1)*B .. k*B of the
+// group. If the group has no place for the requested shape the next one is tried, then none. Msg is ignored then.
+// Empties (0-3) empty binary messages are sent directly before the text message.
 type c39Text struct {
-	Group int `json:"group"`
-	Msg   int `json:"msg"`
+	Group   int `json:"group"`
+	Msg     int `json:"msg"`
+	Align   int `json:"align,omitempty"`
+	Pkt     int `json:"pkt,omitempty"`
+	Empties int `json:"empties,omitempty"`
 }
 
 // c39Empty inserts Run empty binary messages before message Msg of group Group (outside the statement's
@@ -831,21 +842,71 @@ func c39Check(c c39Case, r *evid.Rec) []evid.Disc {
 
 		if g == textGroup {
 			// ---- a text message: the broker must end the connection and process nothing from it on ----
+			// The group is followed by two PINGREQs: whatever follows the text message is valid MQTT that would be
+			// answered if the connection lived on, and the text message itself always carries bytes of that stream.
+			ping := c39Req{c39Enc(&refmqtt.Packet{Type: refmqtt.PINGREQ}, c.Ver), 1, "PINGREQ"}
+			reqsX := append(append([]c39Req{}, reqs...), ping, ping)
+			cutsX, totalX := c39Cuts(reqsX, seg)
+			bufSize := c39ReadBufs[((c.Buf%len(pairs))+len(pairs))%len(pairs)]
+			if bufSize == 0 {
+				bufSize = 2048
+			}
+			start, end, how := c39AlignText(reqsX, totalX, bufSize, c.Text)
+			if how != "plain" {
+				var kept []int
+				for _, x := range cutsX {
+					if x <= start || x >= end {
+						kept = append(kept, x)
+					}
+				}
+				if start > 0 {
+					kept = append(kept, start)
+				}
+				kept = append(kept, end)
+				sort.Ints(kept)
+				cutsX = cutsX[:0]
+				for k, x := range kept {
+					if k == 0 || x != kept[k-1] {
+						cutsX = append(cutsX, x)
+					}
+				}
+			}
+			msgs = c39Messages(c39Join(reqsX), cutsX)
 			m := ((c.Text.Msg % len(msgs)) + len(msgs)) % len(msgs)
+			if how != "plain" {
+				off := 0
+				for k := range msgs {
+					if off == end {
+						m = k
+					}
+					off += len(msgs[k].data)
+				}
+			}
 			msgs[m].text = true
 			textStart := 0
-			for i := 0; i < m; i++ {
-				textStart += len(msgs[i].data)
+			for k := 0; k < m; k++ {
+				textStart += len(msgs[k].data)
 			}
 			allowed, off := 0, 0
-			for _, q := range reqs {
+			for _, q := range reqsX {
 				if off+len(q.raw) <= textStart {
 					allowed += q.answers
 				}
 				off += len(q.raw)
 			}
-			// whatever follows the text message is valid MQTT that would be answered if the connection lived on
-			msgs = append(msgs, c39Msg{data: c39Enc(&refmqtt.Packet{Type: refmqtt.PINGREQ}, c.Ver)})
+			empties := c.Text.Empties
+			if empties < 0 || empties > 3 {
+				empties = 0
+			}
+			if empties > 0 {
+				var with []c39Msg
+				with = append(with, msgs[:m]...)
+				for k := 0; k < empties; k++ {
+					with = append(with, c39Msg{data: []byte{}})
+				}
+				msgs = append(with, msgs[m:]...)
+				m += empties
+			}
 			_ = ws.send(msgs)
 			timedOut := ws.waitClose(c39Stall)
 			if timedOut {
@@ -855,10 +916,14 @@ func c39Check(c c39Case, r *evid.Rec) []evid.Disc {
 				timedOut = ws.waitClose(c39Drain)
 			}
 			got := len(ws.pkts) - base
-			r.Label(fmt.Sprintf("text-at:%s", map[bool]string{true: "packet-boundary", false: "inside-packet"}[c39OnBoundary(reqs, textStart)]))
+			r.Label(fmt.Sprintf("text-at:%s", map[bool]string{true: "packet-boundary", false: "inside-packet"}[c39OnBoundary(reqsX, textStart)]))
+			r.Label("text-after:" + how)
+			if empties > 0 {
+				r.Label("text-after:empty-binary-messages")
+			}
 			if got > allowed {
-				ds = append(ds, evid.D("C39-text-message-not-fatal", "group %d (%s): message %d of %d was sent as a TEXT message; only the %d complete packets before it may be answered (%d answers), but %d packets arrived afterwards: %s",
-					g, what, m, len(msgs)-1, c39CompleteBefore(reqs, textStart), allowed, got, c39List(ws.pkts[base:], c.Ver)))
+				ds = append(ds, evid.D("C39-text-message-not-fatal", "group %d (%s + 2 PINGREQ): message %d of %d was sent as a TEXT message (stream offset %d, preceded by %d empty binary messages; message before it: %s, read buffer %d); only the %d complete packets before it may be answered (%d answers), but %d packets arrived afterwards: %s",
+					g, what, m, len(msgs), textStart, empties, how, bufSize, c39CompleteBefore(reqsX, textStart), allowed, got, c39List(ws.pkts[base:], c.Ver)))
 				return finish()
 			}
 			if timedOut {
@@ -960,6 +1025,68 @@ func c39Check(c c39Case, r *evid.Rec) []evid.Disc {
 	return finish()
 }
 
+// c39AlignText chooses the extent [start, end) of the binary message directly before the text message (see c39Text).
+func c39AlignText(reqs []c39Req, total, bufSize int, t *c39Text) (start, end int, how string) {
+	n := len(reqs)
+	offs := make([]int, n)
+	hdrs := make([]int, n)
+	off := 0
+	for i, q := range reqs {
+		offs[i] = off
+		h := 2
+		for h < 5 && q.raw[h-1]&0x80 != 0 {
+			h++
+		}
+		hdrs[i] = h
+		off += len(q.raw)
+	}
+	pk := ((t.Pkt % n) + n) % n
+	fill := func() bool {
+		for i := 0; i < n; i++ {
+			k := (pk + i) % n
+			if offs[k]+bufSize < total {
+				start, end, how = offs[k], offs[k]+bufSize, "message-fills-read-buffer-from-packet-start"
+				return true
+			}
+		}
+		return false
+	}
+	body := func() bool {
+		for i := 0; i < n; i++ {
+			k := (pk + i) % n
+			if len(reqs[k].raw)-hdrs[k] >= bufSize && offs[k]+len(reqs[k].raw) < total {
+				start, end, how = offs[k]+hdrs[k], offs[k]+len(reqs[k].raw), "message-is-exactly-a-long-packet-body"
+				return true
+			}
+		}
+		return false
+	}
+	multiple := func() bool {
+		kmax := (total - 1) / bufSize
+		if kmax < 1 {
+			return false
+		}
+		k := 1 + ((t.Pkt%kmax)+kmax)%kmax
+		start, end, how = (k-1)*bufSize, k*bufSize, "message-covers-one-read-buffer-multiple"
+		return true
+	}
+	switch t.Align {
+	case 1:
+		if fill() || multiple() {
+			return
+		}
+	case 2:
+		if body() || fill() || multiple() {
+			return
+		}
+	case 3:
+		if multiple() {
+			return
+		}
+	}
+	return 0, 0, "plain"
+}
+
 func c39OnBoundary(reqs []c39Req, pos int) bool {
 	off := 0
 	for _, q := range reqs {
@@ -1048,7 +1175,23 @@ func c39Gen(rt *rapid.T) c39Case {
 	}
 	switch rapid.SampledFrom([]int{3, 0, 4, 2, 5, 1, 6, 7, 8, 9}).Draw(rt, "class") {
 	case 0, 1:
-		c.Text = &c39Text{Group: rapid.IntRange(0, 5).Draw(rt, "tgroup"), Msg: rapid.IntRange(0, 40).Draw(rt, "tmsg")}
+		c.Text = &c39Text{Group: rapid.IntRange(0, 5).Draw(rt, "tgroup"), Msg: rapid.IntRange(0, 40).Draw(rt, "tmsg"),
+			Align:   rapid.SampledFrom([]int{1, 0, 2, 3, 1, 2}).Draw(rt, "talign"),
+			Pkt:     rapid.IntRange(0, 9).Draw(rt, "tpkt"),
+			Empties: rapid.SampledFrom([]int{0, 1, 0, 2, 0, 3}).Draw(rt, "tempties")}
+		if c.Text.Align > 0 {
+			// give the aligned shapes room: a body of at least one read buffer
+			lo := 64
+			if c39ReadBufs[c.Buf] == 0 {
+				lo = 2048
+			}
+			if c.Pubs[0].Size < lo {
+				c.Pubs[0].Size = rapid.IntRange(lo, lo+300).Draw(rt, "tpsize")
+			}
+			if rapid.IntRange(0, 3).Draw(rt, "tpubgroup") > 0 {
+				c.Text.Group = []int{0, 1, 2, 1}[c.Split] // the group that holds the PUBLISHes
+			}
+		}
 	case 2:
 		c.Empty = &c39Empty{Group: rapid.IntRange(0, 5).Draw(rt, "egroup"), Msg: rapid.IntRange(0, 40).Draw(rt, "emsg"),
 			Run: rapid.SampledFrom([]int{1, 1, 2, 3, 7, 150}).Draw(rt, "erun")}
@@ -1057,7 +1200,7 @@ func c39Gen(rt *rapid.T) c39Case {
 }
 
 func TestC39(t *testing.T) {
-	r := evid.New("C39", "rapid: MQTT sessions (v3/v4/v5; CONNECT, SUBSCRIBE to the session's own topic (exact or wildcard, max QoS 0-2), 1-6 PUBLISH QoS 0-2 with payloads 0-5000 bytes, PINGREQ, then the PUBREL/PUBACK/PUBREC/PUBCOMP handshakes for what was sent and received, UNSUBSCRIBE, DISCONNECT) encoded by refmqtt and run against two identically configured real brokers on loopback (pairs with client read buffer 2048 and 64): over listeners.TCP each request group in one write, over listeners.Websocket cut into binary messages at generated boundaries (message sizes from regimes 1, 1-3, 1-16, 1-200, 1-3000, 1-20000 and mixed, optional cuts inside every fixed header / remaining length, optional client-side fragmentation into continuation frames). Oracle: per request group the acknowledgement stream and the forwarded-PUBLISH stream received over WebSocket (binary message payloads concatenated, framed, compared byte for byte, described with refmqtt.Decode) equal those received over TCP, no extra packet, no early close; 2 in 10 cases turn one generated message into a TEXT message: nothing from that message on may be answered and the connection must end. Non-trivial = >= 1 packet spans two messages and >= 1 message holds two complete packets (text cases: the text message was delivered and judged); distinct by full case")
+	r := evid.New("C39", "rapid: MQTT sessions (v3/v4/v5; CONNECT, SUBSCRIBE to the session's own topic (exact or wildcard, max QoS 0-2), 1-6 PUBLISH QoS 0-2 with payloads 0-5000 bytes, PINGREQ, then the PUBREL/PUBACK/PUBREC/PUBCOMP handshakes for what was sent and received, UNSUBSCRIBE, DISCONNECT) encoded by refmqtt and run against two identically configured real brokers on loopback (pairs with client read buffer 2048 and 64): over listeners.TCP each request group in one write, over listeners.Websocket cut into binary messages at generated boundaries (message sizes from regimes 1, 1-3, 1-16, 1-200, 1-3000, 1-20000 and mixed, optional cuts inside every fixed header / remaining length, optional client-side fragmentation into continuation frames). Oracle: per request group the acknowledgement stream and the forwarded-PUBLISH stream received over WebSocket (binary message payloads concatenated, framed, compared byte for byte, described with refmqtt.Decode) equal those received over TCP, no extra packet, no early close; about a quarter of the cases turn one message into a TEXT message (at a generated position, or directly after a binary message shaped to end exactly where the broker's read buffer ends, optionally preceded by 1-3 empty binary messages), followed by more valid MQTT including two PINGREQs: nothing from that message on may be answered and the connection must end. Non-trivial = >= 1 packet spans two messages and >= 1 message holds two complete packets (text cases: the text message was delivered and judged); distinct by full case")
 	defer r.Finish(t)
 	defer c39StopBrokers()
 	r.Assume("the TCP listener and the kernel's loopback TCP are the reference: what the broker answers over listeners.TCP is taken as what 'it would process over TCP'")
